@@ -45,13 +45,13 @@ import (
 
 type c44Srv struct {
 	c41Srv
-	Auth            int    // bfe_tls.ClientAuthType
-	CA              string // "client" (signed the client cert) or "other"
-	Key             int    // ticket key generation
-	CacheOn         bool
-	CacheID         int // which server-side session cache instance
-	TicketsOff      bool
-	RuleClientAuth  bool // requirement expressed through the per-connection rule instead of Config.ClientAuth
+	Auth           int    // bfe_tls.ClientAuthType
+	CA             string // "client" (signed the client cert) or "other"
+	Key            int    // ticket key generation
+	CacheOn        bool
+	CacheID        int // which server-side session cache instance
+	TicketsOff     bool
+	RuleClientAuth bool // requirement expressed through the per-connection rule instead of Config.ClientAuth
 }
 
 type c44Base struct {
@@ -688,6 +688,10 @@ func drawC44Probe(rt *rapid.T) c44Probe {
 
 func TestC44(t *testing.T) {
 	rec := ev.New("C44", "history: first full handshake (std client; ticket or session-ID cache; RSA/ECDSA cert; TLS1.0-1.2; suites; grade; ClientAuth none..require+verify with/without client cert) then probes presenting the credential again (unmodified / bit flip in IV, ciphertext, MAC / truncated / extended / foreign key / foreign MAC key / random) via a second std-client connection or a hand-built ClientHello (version same/above/below, session suite offered or dropped) to a server with 0-2 config changes (key rotation, tickets/cache disabled, other cache, suite removed, min raised, max lowered, client cert required, CA swapped, grade A, chacha off, cert type swapped); direct: decryptTicket on genuine/mutated/arbitrary/re-MACed byte strings. non-trivial: credential modified or configuration changed (direct: all); distinct by (base, probe) / ticket bytes")
+	if w, ok := replayWitness(t); ok {
+		replayC44(t, rec, w)
+		return
+	}
 	getCerts()
 	// deterministic controls and single-change probes for both modes
 	for _, mode := range []string{"ticket", "sessid"} {
